@@ -455,15 +455,16 @@ def parse_json_diags(out, root):
                 continue
             for x in ds:
                 posn = x.get("posn", "")
-                m = re.match(r"^(.*):(\d+):(\d+)$", posn)
+                m = re.match(r"^(.*):(\d+):(\d+)$", posn) or re.match(r"^(.*):(\d+)()$", posn) or re.match(r"^()(\d+)()$", posn) or \
+                    re.match(r"^()(\d+):(\d+)$", posn)    # no column / no file name behind //line directives without them
                 if not m:
                     errors.append("bad posn " + posn)
                     continue
                 f = os.path.relpath(m.group(1), root) if m.group(1).startswith("/") else m.group(1)
                 cm = CODE_RE.match(x.get("message", ""))
                 code = cm.group(1) if cm else "?"
-                key = (f, int(m.group(2)), int(m.group(3)), code, an, x.get("message", ""))
-                res[key] = {"file": f, "line": int(m.group(2)), "col": int(m.group(3)), "code": code, "analyzer": an,
+                key = (f, int(m.group(2)), int(m.group(3) or 0), code, an, x.get("message", ""))
+                res[key] = {"file": f, "line": int(m.group(2)), "col": int(m.group(3) or 0), "code": code, "analyzer": an,
                             "message": x.get("message", "")}
     return [res[k] for k in sorted(res)], errors
 
